@@ -161,7 +161,7 @@ func readCollection(source []byte, injectorFactory func(int) (injector, error), 
 	total := len(source)
 	if size, err := readCollectionSize(reader, version); err != nil {
 		return err
-	} else if inj, err := injectorFactory(size); err != nil {
+	} else if inj, err := injectorFactory(allocationSize(size, reader.Len(), 1, version)); err != nil {
 		return err
 	} else {
 		for i := 0; i < size; i++ {
@@ -225,6 +225,22 @@ func readCollectionSize(source io.Reader, version primitive.ProtocolVersion) (si
 	}
 	if err != nil {
 		err = fmt.Errorf("cannot read collection size: %w", err)
+	} else if size < 0 {
+		err = collectionSizeNegative(size)
 	}
 	return
+}
+
+// allocationSize bounds the number of elements to allocate for a collection whose size was read from the wire: each
+// element (lengthsPerEntry is 1 for lists and sets, 2 for map entries) takes at least the bytes of its own length
+// prefix, so no more than that many elements can follow; reading a larger collection fails on the missing bytes.
+func allocationSize(size int, remaining int, lengthsPerEntry int, version primitive.ProtocolVersion) int {
+	lengthOfLength := primitive.LengthOfShort
+	if version.Uses4BytesCollectionLength() {
+		lengthOfLength = primitive.LengthOfInt
+	}
+	if max := remaining / (lengthOfLength * lengthsPerEntry); size > max {
+		return max
+	}
+	return size
 }
